@@ -227,7 +227,7 @@ pub const LIST_SOUP: &[&[u8]] = &[b"@", b"1", b"!", b":", b",", b"-", b"+", b"'"
 
 pub fn run(cfg: &Cfg, rep: &mut Report) {
     // (a) Node::run on generated trees x handler scripts x inputs
-    let ntrees = cfg.n(8, 10_000, 1_000_000);
+    let ntrees = cfg.n(8, 40_000, 1_000_000);
     let nin = cfg.n(12, 150, 400) as usize;
     run_cases(cfg, "run", ntrees, rep, |rng, ctx| {
         let unamb = rng.bool();
@@ -359,7 +359,7 @@ pub fn run(cfg: &Cfg, rep: &mut Report) {
         }
     });
     // (b) direct API drive
-    let n = cfg.n(60, 400_000, 20_000_000);
+    let n = cfg.n(60, 1_600_000, 32_000_000);
     run_cases(cfg, "direct", n, rep, |rng, ctx| {
         let input: Vec<u8> = match rng.usize(8) {
             0 => gen_message(rng).0,
